@@ -66,6 +66,9 @@ class SymInputs:
     def bool(self, name):
         return self._reg(name, SBool(z3.Bool(name)))
 
+    def real(self, name, lo=None, hi=None):
+        return self._reg(name, core.sym_real(name, lo, hi))
+
     def flag(self, name):
         """a boolean that is forked immediately (returns a Python bool)"""
         return bool(self.bool(name))
@@ -129,6 +132,9 @@ class NativeInputs:
 
     def bool(self, name):
         return self._get(name, False)
+
+    def real(self, name, lo=None, hi=None):
+        return self._get(name, float(lo if lo is not None else 0))
 
     flag = bool
 
